@@ -486,6 +486,7 @@ HEADER = """-- GENERATED by tools/props/c01.py from src/solver.cpp, src/solver/s
   `c ? a : b` ↦ `if c then a else b`, `!b` ↦ `(!b)`.
 -/
 namespace NanoVerif.Gen.DoneLogic
+set_option linter.unusedVariables false
 
 """
 
